@@ -191,6 +191,11 @@ func getGuardianSetsFromChain(ctx context.Context, contract *abi.Abi, fromIndex,
 		if err != nil {
 			return nil, err
 		}
+		if len(res.Keys) == 0 {
+			// The contract answers an index it has no guardian set for with an empty set. Filing that
+			// under the index would keep the real set from ever being learned once it exists.
+			return nil, fmt.Errorf("guardian set %v does not exist on chain", index)
+		}
 		guardianSets = append(guardianSets, &common.GuardianSet{
 			Keys:  res.Keys,
 			Index: index,
